@@ -131,6 +131,78 @@ def correspond(ctx):
         ok = ok and all(abs(a - (-2 * dt * g)) < 1e-15 for _, a in rx) and all(abs(a - (-2 * dt * J)) < 1e-15 for _, a in rzz)
         if not ok:
             ctx.mismatch("create_ising_circuit gate list vs CircuitLib", {"L": L, "periodic": periodic}, (rx, rzz, others), (mf, mb))
+    hamiltonian_correspondence(ctx)
+
+
+def captured_terms(build):
+    """the `terms` argument the real builder hands to from_pauli_sum, parsed into (Fraction coefficient, [(site, op id)...])"""
+    import re
+
+    from mqt.yaqs.core.data_structures.networks import MPO
+
+    box = {}
+    real = MPO.from_pauli_sum
+
+    def spy(self, *, terms, **kw):
+        box["terms"] = list(terms)
+        box["kw"] = kw
+        return real(self, terms=terms, **kw)
+
+    MPO.from_pauli_sum = spy
+    try:
+        build()
+    finally:
+        MPO.from_pauli_sum = real
+    out = []
+    for c, spec in box.get("terms", []):
+        toks = re.findall(r"([IXYZ])(\d+)", spec)
+        out.append((Fraction(float(np.real(c))).limit_denominator(1 << 20), [(int(i), LAB.index(p)) for p, i in toks]))
+    return out, box.get("kw", {})
+
+
+def hamiltonian_correspondence(ctx):
+    from mqt.yaqs.core.data_structures.networks import MPO
+
+    hdr = ("From Coq Require Import List QArith. Import ListNotations.\nFrom Yaqs Require Import Model.PauliFSM Model.HamTerms.\n"
+           "Definition pid (p : pauli) : nat := match p with PI => 0 | PX => 1 | PY => 2 | PZ => 3 end%nat.\n"
+           "Definition show (l : list (Q * list (nat * pauli))) := map (fun t => (fst t, map (fun s => (fst s, pid (snd s))) (snd t))) l.")
+    cases, exprs, impl = [], [], []
+    r = ctx.rng
+    q8 = lambda: Fraction(int(r.integers(-12, 13)), 8)  # noqa: E731
+    for k in range(ctx.scale(60, 900)):
+        L = int(r.integers(1, 9))
+        per = bool(r.random() < 0.5) and L >= 2  # a periodic single site couples site 0 to itself: from_pauli_sum rejects "Z0 Z0"
+        bc = "periodic" if per else "open"
+        kind = ("ising", "heisenberg", "hamiltonian")[k % 3]
+        if kind == "ising":
+            J, g = q8(), q8()
+            got, _ = captured_terms(lambda: MPO.ising(L, float(J), float(g), bc=bc))
+            exprs.append(f"show (ising_terms {L}%nat {g_q(J)} {g_q(g)} {'true' if per else 'false'})")
+            par = dict(J=str(J), g=str(g))
+        elif kind == "heisenberg":
+            a, b, c, h = q8(), q8(), q8(), (q8() if r.random() < 0.7 else Fraction(0))
+            got, _ = captured_terms(lambda: MPO.heisenberg(L, float(a), float(b), float(c), float(h), bc=bc))
+            exprs.append(f"show (heisenberg_terms {L}%nat {g_q(a)} {g_q(b)} {g_q(c)} {g_q(h)} {'true' if per else 'false'})")
+            par = dict(Jx=str(a), Jy=str(b), Jz=str(c), h=str(h))
+        else:
+            two = [(q8(), str(r.choice(list("XYZ"))), str(r.choice(list("XYZ")))) for _ in range(int(r.integers(0, 4)))]
+            one = [(q8(), str(r.choice(list("XYZ")))) for _ in range(int(r.integers(0, 3)))]
+            got, _ = captured_terms(lambda: MPO.hamiltonian(length=L, two_body=[(float(c), a, b) for c, a, b in two],
+                                                            one_body=[(float(c), a) for c, a in one], bc=bc))
+            tw = g_list([f"({g_q(c)}, P{a}, P{b})" for c, a, b in two])
+            on = g_list([f"({g_q(c)}, P{a})" for c, a in one])
+            exprs.append(f"show (ham_terms {L}%nat {tw} {on} {'true' if per else 'false'})")
+            par = dict(two_body=[(str(c), a, b) for c, a, b in two], one_body=[(str(c), a) for c, a in one])
+        impl.append(got)
+        cases.append(dict(builder=kind, L=L, bc=bc, **par))
+    vals = common.coq_eval_sharded(hdr, exprs, tag="c07h")
+    for c, got, want in zip(cases, impl, vals):
+        ctx.case(nontrivial_key=("terms", str(c)) if c["L"] >= 3 else None, validated=True)
+        ctx.count("term_lists_" + c["builder"])
+        w = [(Fraction(t[0]), [tuple(x) for x in t[1]]) for t in want]
+        g = [(t[0], [tuple(x) for x in t[1]]) for t in got]
+        if g != w:
+            ctx.mismatch("terms handed to from_pauli_sum vs HamTerms", c, [(str(a), b) for a, b in g][:6], [(str(a), b) for a, b in w][:6], key="terms")
 
 
 # ---- dense definitions ------------------------------------------------------------------------------------------------
@@ -213,9 +285,42 @@ def builder_oracle(args):
             want += om * on({i: nn}) + 0.5 * u * on({i: nn @ (nn - ident)})
         for i in range(L - 1):
             want -= jj * (on({i: a.conj().T, i + 1: a}) + on({i: a, i + 1: a.conj().T}))
-        got = MPO.bose_hubbard(L, d, om, jj, u).to_matrix()
+        mpo = MPO.bose_hubbard(L, d, om, jj, u)
+        got = mpo.to_matrix()
         if got.shape != want.shape or not np.allclose(got, want, atol=1e-9):
             return f"bose_hubbard(L={L}, d={d}) differs from sum_i w n_i + U/2 n_i(n_i-1) - J(a+_i a_(i+1) + h.c.) by {np.max(np.abs(got - want)):.3e}"
+        sp = mpo.to_sparse_matrix().toarray()
+        if sp.shape != want.shape or not np.allclose(sp, want, atol=1e-9):
+            return f"bose_hubbard(L={L}, d={d}): to_sparse_matrix differs from the documented Hamiltonian"
+        return None
+    if kind == "coupled_transmon":
+        L, dq, dr = args["L"], args["d"], args["dr"]
+        wq, wr, al, g = float(rng.uniform(0.5, 1.5)), float(rng.uniform(0.5, 1.5)), float(rng.uniform(-0.6, 0.0)), float(rng.uniform(0.1, 0.6))
+        dims = [dq if i % 2 == 0 else dr for i in range(L)]
+
+        def low(dd):
+            return np.diag(np.sqrt(np.arange(1, dd)), 1).astype(complex)
+
+        def on(ops):
+            return dense.kron_all([ops.get(i, np.eye(dims[i], dtype=complex)) for i in range(L)])
+
+        dim = int(np.prod(dims))
+        want = np.zeros((dim, dim), dtype=complex)
+        for i in range(L):
+            a = low(dims[i])
+            nn = a.conj().T @ a
+            want += on({i: wq * nn + 0.5 * al * nn @ (nn - np.eye(dims[i]))}) if i % 2 == 0 else on({i: wr * nn})
+        for i in range(L - 1):
+            a, b = low(dims[i]), low(dims[i + 1])
+            want += g * on({i: a + a.conj().T, i + 1: b + b.conj().T})
+        mpo = MPO.coupled_transmon(L, dq, dr, wq, wr, al, g)
+        got = np.asarray(mpo.to_matrix(), dtype=complex)
+        if got.shape != want.shape or not np.allclose(got, want, atol=1e-9):
+            return (f"coupled_transmon(length={L}, qubit_dim={dq}, resonator_dim={dr}) differs from sum_q (w_q n + a/2 n(n-1)) + sum_r w_r n "
+                    f"+ g sum (b+b^+)(a+a^+) by {np.max(np.abs(got - want)) if got.shape == want.shape else 'shape'}")
+        sp = mpo.to_sparse_matrix().toarray()
+        if sp.shape != want.shape or not np.allclose(sp, want, atol=1e-9):
+            return f"coupled_transmon(length={L}, qubit_dim={dq}, resonator_dim={dr}): to_sparse_matrix differs from the documented Hamiltonian"
         return None
     return None
 
@@ -336,12 +441,14 @@ def trotter_oracle(args):
 def search(ctx):
     r = ctx.rng
     for k in range(ctx.scale(40, 700)):
-        kind = ["pauli_sum", "ising", "heisenberg", "hamiltonian", "from_matrix", "bose_hubbard"][k % 6]
+        kind = ["pauli_sum", "ising", "heisenberg", "hamiltonian", "from_matrix", "bose_hubbard", "coupled_transmon"][k % 7]
         a = dict(kind=kind, seed=int(r.integers(0, 2**31)), L=int(r.integers(1 if kind == "pauli_sum" else 2, 6)), bc=str(r.choice(["open", "periodic"])), d=int(r.integers(2, 4)))
         if kind == "from_matrix":
             a["L"] = int(r.integers(1, 4))
         if kind == "bose_hubbard":
-            a["L"] = int(r.integers(1, 4))
+            a["L"] = int(r.integers(1, 6))
+        if kind == "coupled_transmon":
+            a["L"], a["dr"] = int(r.integers(1, 7)), int(r.integers(2, 4))
         try:
             why = builder_oracle(a)
         except Exception as e:  # noqa: BLE001
